@@ -91,11 +91,12 @@ def oracle(case):
     return rows, [k * dts for k in range(m)], maxbits
 
 
-def gen_case(rng, kind):
+def gen_case(rng, kind, jax_nonmultiple=False):
+    """jax_nonmultiple: an end-to-end jax run whose T is not a multiple of the sampling step and whose step count is not store_steps * store_step"""
     n = rng.randint(1, 3)
     method = rng.choice(["euler", "heun"])
-    s = rng.choice([1, 1, 2, 3, 4])
-    m = rng.randint(1, 6)
+    s = rng.choice([1, 1, 2, 3, 4]) if not jax_nonmultiple else rng.choice([2, 3, 4])
+    m = rng.randint(1, 6) if not jax_nonmultiple else rng.randint(2, 3)
     dt = rng.choice([Fraction(1), Fraction(1), Fraction(1, 2), Fraction(1, 4), Fraction(2)])
     dts = s * dt
     T = m * dts
@@ -106,10 +107,16 @@ def gen_case(rng, kind):
     U = [[q2s(Fraction(rng.randint(-4, 4))) for _ in range(steps + 8)] for _ in range(n_inputs)]
     cut_choices = [Fraction(0), Fraction(0), dts, T, T + 1] + [dts * Fraction(k, 4) for k in range(0, 4 * m + 3)]
     backend = "default"
-    if kind == "e2e" and rng.random() < 0.25:
+    if kind == "e2e" and (rng.random() < 0.25 or jax_nonmultiple):
         backend = "jax"
     Tq = T
-    if kind == "e2e" and rng.random() < 0.3:
+    if jax_nonmultiple:
+        # at least two stored rows, and round(T/dt) // round(T/dts) differs from dts/dt (a scheme that spreads the steps evenly over the rows shows)
+        for fr in rng.sample([Fraction(-1, 4), Fraction(-3, 8), Fraction(3, 8), Fraction(-1, 2) + Fraction(1, 16)], 4):
+            Tq = T + dts * fr
+            if py_round(Tq / dts) >= 2 and py_round(Tq / dt) // py_round(Tq / dts) != s:
+                break
+    elif kind == "e2e" and rng.random() < 0.3:
         Tq = T + dts * rng.choice([Fraction(1, 4), Fraction(-1, 4), Fraction(3, 8), Fraction(-3, 8)])   # T not a multiple of the sampling step
     return {"kind": kind, "method": method, "inplace": rng.random() < 0.6, "field": fs, "U": U,
             "t0": (rng.choice([0, 0, 0, 1, 3]) if kind == "unit" and not n_inputs else 0),
@@ -225,7 +232,7 @@ def run_impl(case):
 
 def model_request(case, tables):
     r = {"comp": "solver", "method": case["method"], "inplace": case["inplace"] if case["kind"] == "unit" else True,
-         "copy_rhs": bool(tables.get("heunCopiesRhs")), "field": case["field"], "U": case["U"], "t0": case["t0"],
+         "copy_rhs": bool(tables.get("heunCopiesRhs")), "guarded": bool(tables.get("storeGuarded")), "field": case["field"], "U": case["U"], "t0": case["t0"],
          "T": case["T"], "dt": case["dt"], "dts": case["dts"], "y0": case["y0"], "rows_only": case["kind"] == "unit"}
     if case["kind"] != "unit":
         r["cutoff"] = case["cutoff"]
@@ -339,28 +346,15 @@ def float_grid(_):
 
 
 def same(a, b):
+    if "crash" in a or "crash" in b:
+        return False
     if "error" in a or "error" in b:
         return a.get("error") == b.get("error")
     return a["rows"] == b["rows"]
 
 
-def kf_single_row(case, impl):
-    """run() with exactly one stored sample (T == sampling step): squeeze() collapses the time axis"""
-    return case["kind"] == "e2e" and py_round(Fraction(case["T"]) / Fraction(case["dts"])) == 1 and "error" in impl \
-        and impl["error"] in ("ValueError", "IndexError")
-
-
-def kf_nonmultiple(case, impl):
-    """numpy backend, T not a multiple of the sampling step and more store events than round(T/dts) rows -> IndexError (loud)"""
-    T, dt, dts = Fraction(case["T"]), Fraction(case["dt"]), Fraction(case["dts"])
-    s = int(dts / dt)
-    steps, m = py_round(T / dt), py_round(T / dts)
-    return case["kind"] == "e2e" and case.get("backend", "default") == "default" and (T / dts).denominator != 1 \
-        and -(-steps // s) > m and impl.get("error") == "IndexError"
-
-
-KNOWN = {"C03-nonmultiple-T-indexerror": (kf_nonmultiple, "numpy backend raises IndexError instead of returning round(T/dts) rows when T is not a multiple of the sampling step and ceil(steps/store_step) > round(T/dts)"),
-         "C03-single-row": (kf_single_row, "run() raises instead of returning one row when T equals the sampling step (single stored sample)")}
+# the two loud findings of this stream (single stored row, T not a multiple of the sampling step) were repaired in /repo: nothing is suppressed here
+KNOWN = {}
 
 
 def explicit_t_probe(_):
@@ -493,6 +487,7 @@ def check(tier, seed, replay=None):
         n_unit, n_e2e = (250, 120) if tier == "quick" else (4000, 1500)
         cases = [json.load(open(f))["case"] for f in sorted(glob.glob(os.path.join(C.VERIF, "corpus", PID, "*.json")))]
         cases += [gen_case(rng, "unit") for _ in range(n_unit)] + [gen_case(rng, "e2e") for _ in range(n_e2e)]
+        cases += [gen_case(rng, "e2e", jax_nonmultiple=True) for _ in range(8 if tier == "quick" else 60)]
     # oracle first: discard inexact cases (and draw replacements so the budget is met)
     kept, specs, discarded = [], [], 0
     want = len(cases)
